@@ -5,3 +5,4 @@ pub mod pool2_router;
 pub mod stable2;
 pub mod vault;
 pub mod vault_helpers;
+pub mod pool3;
